@@ -57,7 +57,7 @@ def job(args):
         sin = spread
         if p == 1 and spread is not None and not np.isscalar(spread):
             sin = spread[0] if skind == "per-state" else np.asarray(spread).ravel()
-        case = {"model": name, "loss": kind, "state_name": cols, "theta": theta, "grid": tgrid, "t0": t0, "weights": wkind, "spread": skind,
+        case = {"cfg": list(cfg), "model": name, "loss": kind, "state_name": cols, "theta": theta, "grid": tgrid, "t0": t0, "weights": wkind, "spread": skind,
                 "target_param": tp, "entry": entry}
         sig = {"loss": kind, "entry": entry, "nstates": p, "order": "model" if cols == [s for s in states if s in cols] else "permuted",
                "weights": wkind, "spread": skind, "target_param": None if tp is None else ("model-order" if tp == [q for q in params if q in tp] else "permuted"),
